@@ -190,7 +190,7 @@ class SymObj:
         return '<SymObj %s %s>' % (self.cls.name, self.ref)
 
     def __getattr__(self, name):
-        if name.startswith('__'):
+        if name.startswith('__') or name.startswith('pv_'):
             raise AttributeError(name)
         st = object.__getattribute__(self, 'st')
         return st.read_field(self, name)
@@ -276,6 +276,17 @@ class SymMap:
 _TUPLE_SORTS = {}
 
 
+_PAIR_SORTS = {}
+
+
+def pair_sort(s1, s2):
+    k = (str(s1), str(s2))
+    if k not in _PAIR_SORTS:
+        name = 'Pair_' + ''.join(c if c.isalnum() else '_' for c in k[0] + '_' + k[1])
+        _PAIR_SORTS[k] = z3.TupleSort(name, [s1, s2])
+    return _PAIR_SORTS[k]
+
+
 def list_sort(inner_sort):
     """z3 tuple sort (arr: Array(Int->inner), n: Int) for list values stored inside symbolic maps"""
     k = str(inner_sort)
@@ -298,6 +309,8 @@ class Kind:
     def sort(self):
         if self.ty == 'seq':
             return list_sort(self.inner.sort())[0]
+        if self.ty == 'pair':
+            return pair_sort(self.inner[0].sort(), self.inner[1].sort())[0]
         return {'int': IntSort, 'bool': BoolSort, 'real': RealSort, 'bytes': BytesSort,
                 'str': StrSort, 'obj': IntSort, 'fn': IntSort, 'enum': IntSort, 'box': IntSort}[self.ty]
 
